@@ -56,6 +56,10 @@ type World struct {
 	cgKind string
 	out    *Out
 	writes map[*ssa.Function]map[*types.Var]bool // transitive field-write sets (lazy)
+	paramEnv    map[*ssa.Parameter][2]int64
+	fieldInv    map[*types.Var][3]int64
+	fieldLenInv map[*types.Var][3]int64
+	nilStored   map[*types.Var]bool
 	fninfo map[*ssa.Function]*FnInfo
 }
 
@@ -88,7 +92,7 @@ func load(lc LoadCfg) (*World, error) {
 		return nil, fmt.Errorf("no packages loaded for configuration %s", lc.Name)
 	}
 	w := &World{Cfg: lc.Name, Pkgs: pkgs, ByPath: map[string]*packages.Package{}, SSA: map[string]*ssa.Package{},
-		fninfo: map[*ssa.Function]*FnInfo{}}
+		fninfo: map[*ssa.Function]*FnInfo{}, nilStored: map[*types.Var]bool{}}
 	var errs []string
 	packages.Visit(pkgs, nil, func(p *packages.Package) {
 		w.ByPath[p.PkgPath] = p
@@ -284,7 +288,9 @@ func (w *World) srcFuncs(pkgPath string) []*ssa.Function {
 }
 
 func isTestFile(w *World, p token.Pos) bool {
-	return strings.HasSuffix(w.Fset.Position(p).Filename, "_test.go")
+	f := w.Fset.Position(p).Filename
+	// *_test_utils.go / rand_utils.go hold helpers that take *testing.T: test utilities compiled into the package
+	return strings.HasSuffix(f, "_test.go") || strings.HasSuffix(f, "_test_utils.go") || strings.HasSuffix(f, "random/rand_utils.go")
 }
 
 func writeOut(path string, o *Out) error {
